@@ -103,6 +103,15 @@ func chunksFor(c *Case, data []byte, itemLens []int, rng *prng) [][]byte {
 	}
 }
 
+// splitScr cuts an M/A line into geometry, style and keyboard parts.
+func splitScr(line string) (geo, sty, kbd string) {
+	f := strings.Fields(line)
+	if len(f) < 13 {
+		return line, "", ""
+	}
+	return strings.Join(f[1:10], " "), f[10], strings.Join(f[11:], " ")
+}
+
 func diffObs(io obsBlock, mo modelObs) []string {
 	var projs []string
 	cmp := func(k, got string) {
@@ -111,31 +120,56 @@ func diffObs(io obsBlock, mo modelObs) []string {
 		}
 	}
 	cmp("G", io.G)
-	cmp("M", io.M)
-	cmp("A", io.A)
+	for _, k := range []string{"M", "A"} {
+		got := io.M
+		if k == "A" {
+			got = io.A
+		}
+		if mo.lines[k] != got {
+			g1, s1, k1 := splitScr(got)
+			g2, s2, k2 := splitScr(mo.lines[k])
+			if g1 != g2 {
+				projs = append(projs, k+"geo")
+			}
+			if s1 != s2 {
+				projs = append(projs, k+"sty")
+			}
+			if k1 != k2 {
+				projs = append(projs, k+"kbd")
+			}
+		}
+	}
 	cmp("V", io.V)
 	cmp("E", io.E)
 	cmp("W", io.W)
-	rowDiff := false
+	rowDiff := map[string]bool{}
 	for k, v := range io.rows {
 		if mv, ok := mo.rows[k]; !ok || mv != v {
-			rowDiff = true
+			rowDiff["R"+k[:1]] = true
 		}
 	}
 	for k := range mo.rows {
 		if _, ok := io.rows[k]; !ok {
-			rowDiff = true
+			rowDiff["R"+k[:1]] = true
 		}
 	}
-	if rowDiff {
-		projs = append(projs, "R")
+	for _, k := range []string{"R0", "R1"} {
+		if rowDiff[k] {
+			projs = append(projs, k)
+		}
 	}
 	return projs
 }
 
 func describeDiff(io obsBlock, mo modelObs, projs []string) string {
 	var sb strings.Builder
+	seen := map[string]bool{}
 	for _, p := range projs {
+		p = p[:1]
+		if seen[p] {
+			continue
+		}
+		seen[p] = true
 		switch p {
 		case "R":
 			for k, v := range io.rows {
@@ -170,7 +204,7 @@ func runCase(c *Case, d *driver, opts runOpts) (res caseResult) {
 	im.fe.probeLock = opts.probeLock
 	useModel := !opts.noModel && c.Mode == 0 && d != nil
 	step := 0
-	addF := func(f finding) { res.Findings = append(res.Findings, f) }
+	addF := func(f finding) { f.Grid = c.Grid; res.Findings = append(res.Findings, f) }
 
 	var snapCheck = func(tags string, evFrom, wrFrom int) {
 		snap := im.vt.Snap()
@@ -192,7 +226,7 @@ func runCase(c *Case, d *driver, opts runOpts) (res caseResult) {
 		}
 		io, _ := im.observe(true)
 		if projs := diffObs(io, mo); len(projs) > 0 {
-			addF(finding{Step: 0, Kind: "diverge", Clause: strings.Join(projs, ""), Tags: "init", Detail: describeDiff(io, mo, projs)})
+			addF(finding{Step: 0, Kind: "diverge", Clause: strings.Join(projs, "+"), Tags: "init", Detail: describeDiff(io, mo, projs)})
 			res.Cut = true
 			return
 		}
@@ -239,7 +273,7 @@ func runCase(c *Case, d *driver, opts runOpts) (res caseResult) {
 					}
 					return false
 				}
-				addF(finding{Step: step, Kind: "diverge", Clause: strings.Join(projs, ""), Tags: *tags, Detail: describeDiff(io, mo, projs)})
+				addF(finding{Step: step, Kind: "diverge", Clause: strings.Join(projs, "+"), Tags: *tags, Detail: describeDiff(io, mo, projs)})
 				res.Cut = true
 				// still run the monitors on this state
 				snapCheckSafe(im, step, *tags, evFrom, wrFrom, &res.Findings)
